@@ -905,7 +905,7 @@ func (e *Engine) step(st *State) (succ []*State, cont bool) {
 		var out []*State
 		// beyond a few dozen paths infeasible branches are pruned with the solver (cheap queries);
 		// pruning an infeasible branch never loses an obligation that could fail
-		prune := e.paths > 48
+		prune := e.paths > 48 || (e.paths > 6 && e.con != nil && e.con.Lemma)
 		// push else first so that then-branch is explored first (LIFO)
 		if !prune || e.feasible(s2) {
 			out = append(out, e.gotoBlock(s2, s2.top().block.Succs[1])...)
